@@ -3,6 +3,7 @@
   13 scalar/header buffer readers and ReadMessageBegin. Property theorems only.
 -/
 import Verif.Lemmas.WireR
+import Verif.Lemmas.WireMsgSafe
 namespace Verif.C03
 open Verif.Wire
 
@@ -37,6 +38,27 @@ theorem wire_msgbegin_safe (b : Bytes) :
   · intro r; repeat' split
     all_goals simp
     intro h; rw [← h]; simp; omega
+
+/-- generic message unmarshal: `UnmarshalFastMsg(b, msg)` with an ApplicationException as the caller's
+    struct returns normally on EVERY byte string and every previous content of the struct — no index
+    or slice panic (`b[i:]`, the FastRead loops), no out-of-bounds load inside Skip, loop fuel never
+    exhausted. (No length is reported by this entry point; inside it every offset stays ≤ len(b):
+    `appExReadLoop_safe`.) -/
+theorem wire_unmarshal_safe (b : Bytes) (msg : AppEx) :
+    ∃ u, unmarshalFastMsg appExCodec b msg = .ok u :=
+  unmarshal_safe appExCodec (fun t b => by rw [appExCodec_read]; exact appExRead_safe t b) b msg
+
+/-- the same in the vocabulary of the other C03 theorems -/
+theorem wire_unmarshal_no_panic (b : Bytes) (msg : AppEx) : (unmarshalFastMsg appExCodec b msg).Safe := by
+  obtain ⟨u, h⟩ := wire_unmarshal_safe b msg
+  simp [Out.Safe, h]
+
+/-- for ANY payload codec whose FastRead returns normally with an offset inside its input (the fc
+    family proves this for Base / BaseResp), UnmarshalFastMsg returns normally on every byte string -/
+theorem wire_unmarshal_safe_codec {α : Type} (C : Codec α)
+    (hC : ∀ t b, (∃ n, (C.read t b).2 = .ok n ∧ n ≤ b.length) ∨ (∃ e, (C.read t b).2 = .err e))
+    (b : Bytes) (msg : α) : ∃ u, unmarshalFastMsg C b msg = .ok u :=
+  unmarshal_safe C hC b msg
 
 /-! non-vacuity: the statement is about every input; two inputs that exercise an error and a success -/
 example : binRead .str [0, 0, 0, 5, 0x68] = .err (.pe 1, 4) := by decide
